@@ -2,9 +2,14 @@
 program traced and compiled; prints the probe's MIR (or error) as one JSON line.
 argv[1]: JSON file {"steps": [path, ...], "probe": path, "timers": bool}"""
 import json
+import os
 import sys
 
 spec = json.load(open(sys.argv[1]))
+for _p in spec["steps"] + [spec["probe"]]:
+    _d = os.path.dirname(os.path.abspath(_p))      # helper modules next to a program can be imported by it
+    if _d not in sys.path:
+        sys.path.insert(0, _d)
 try:
     from nada_dsl.compiler_frontend import nada_dsl_to_nada_mir
     if spec.get("timers"):
